@@ -274,8 +274,9 @@ def tasks(tier):
                     for nv in nvs:
                         t.append(dict(harness="h_field_diff",
                                       cfg=dict(n=list(n), axis=ax, order=order, nvdim=nv, periodic=periodic, restrict=restrict,
-                                               dims="renamed" if (len(n) + order) % 2 else "default", labels=bool(nv > 1)),
-                                      limits=dict(max_paths=5000, validate=1)))
+                                               # periodic directions are named by single characters: 4-d needs the one-letter names
+                                               dims="renamed" if ((len(n) + order) % 2 or (periodic and len(n) == 4)) else "default", labels=bool(nv > 1)),
+                                      limits=dict(max_paths=5000, validate=1, wall_budget=600.0 if tier == "quick" else 3000.0)))
     # periodic rings of every small length, fully valid (centred difference with wrap-around)
     for ring in range(1, (5 if tier == "quick" else 6) + 1):
         for order in (1, 2):
